@@ -99,7 +99,8 @@ fn step(target: &str, sni: &str, s: &Value, seed: &mut Rng) -> Value {
         "valid" | "tls" => {
             let protos = if s.get("alpn").is_some() { strs(s.get("alpn")) } else { vec!["acme-tls/1".to_string()] };
             let sni = s.get("sni").and_then(|v| v.as_str()).unwrap_or(sni);
-            let r = tls_probe(conn, sni, &protos);
+            // a validating client may be limited to some protocol versions (RFC 8737: TLS 1.2 or higher)
+            let r = tls_probe_versions(conn, sni, &protos, s.get("min_tls").and_then(|v| v.as_str()), s.get("max_tls").and_then(|v| v.as_str()));
             json!({"do": what, "connected": true, "offered": protos, "result": r})
         }
         "tls_no_alpn" => json!({"do": what, "connected": true, "result": tls_probe(conn, sni, &[])}),
